@@ -324,6 +324,18 @@ theorem C19_highlight_outside_counterexample :
     ⟨[⟨97, true⟩, ⟨98, true⟩], [(0, 3), (1, 2)]⟩, ⟨by decide, by decide⟩, by decide, by decide,
     by decide, by decide⟩
 
+/-- the same failure with the default `max_num_chars = 150` and no over-long token: n-grams (1,3)
+of `abcd` behind a stop-word filter that removes `d` and `cd` — the stream ends with (2,3), the
+term token (1,4) ends after the fragment's stop offset -/
+theorem C19_highlight_outside_filtered_counterexample :
+    ∃ (s : Text) (ts : List STok) (sn : Snippet),
+      SContract s ts ∧ (∀ t ∈ ts, t.to - t.from_ ≤ 150) ∧ snippet s 150 ts = some sn ∧
+      byteLen sn.fragment = 3 ∧ sn.hl = [(1, 4)] ∧ toHtml sn = none := by
+  refine ⟨[⟨97, true⟩, ⟨98, true⟩, ⟨99, true⟩, ⟨100, true⟩],
+    [⟨0, 1, none⟩, ⟨0, 2, none⟩, ⟨0, 3, none⟩, ⟨1, 2, none⟩, ⟨1, 3, none⟩, ⟨1, 4, some 1⟩, ⟨2, 3, none⟩],
+    ⟨[⟨97, true⟩, ⟨98, true⟩, ⟨99, true⟩], [(1, 4)]⟩, ⟨by decide, by decide⟩, by decide, by decide,
+    by decide, rfl, by decide⟩
+
 /-- the raw highlight list has one range per matching token: with overlapping tokens (n-grams)
 the ranges overlap (only `to_html` collapses them) -/
 theorem C19_raw_highlights_overlap_counterexample :
